@@ -178,6 +178,74 @@ def run_lines(ck, exe, lines, timeout=3000):
     return out
 
 
+# ----------------------------------------------------------------------------- compilation
+def compile_units(ck, units):
+    """one sanitized object per translation unit of the tree under test. An object is reused only when the
+    preprocessed text of its unit (every header expanded, same flags) is byte for byte the one it was compiled
+    from: the key is the sha256 of `g++ -E -P` — what the compiler proper would see — so any change of the
+    tree that reaches a unit recompiles it."""
+    import hashlib
+    import shutil
+    import subprocess
+    from concurrent.futures import ThreadPoolExecutor
+    cache = ck.path("objcache")
+    os.makedirs(cache, exist_ok=True)
+    base = ["g++", "-std=c++20", "-O1", "-g0", "-ffp-contract=off", "-fno-fast-math",
+            "-I" + os.path.join(vlib.VERIF, "harness"), "-I" + os.path.join(vlib.VERIF, "harness", "symtrace"),
+            "-I" + os.path.join(vlib.REPO, "include"), "-I" + os.path.join(vlib.BUILD, "include"),
+            "-I" + vlib.REPO + "/src/Material", "-DTFEL_VERIF_HOOKS"]
+
+    def key(u):
+        src = u if os.path.isabs(u) else os.path.join(vlib.VERIF, "harness", u)
+        p = subprocess.run(base + ["-E", "-P", src], capture_output=True, timeout=900)
+        if p.returncode != 0:
+            return None
+        return hashlib.sha256(b"asan+ubsan -O1 v1\n" + p.stdout).hexdigest()
+    with ThreadPoolExecutor(max_workers=4) as ex:
+        keys = list(ex.map(key, units))
+    objs, todo = {}, []
+    for i, (u, k) in enumerate(zip(units, keys)):
+        name = "c56_%d.o" % i
+        hit = k is not None and os.path.exists(os.path.join(cache, k + ".o"))
+        if hit:
+            shutil.copyfile(os.path.join(cache, k + ".o"), ck.path(name))
+            objs[name] = ck.path(name)
+        else:
+            todo.append((name, [u], ("-c",)))
+    ck.log("objects: %d reused (identical preprocessed text), %d compiled" % (len(objs), len(todo)))
+    if todo:
+        objs.update(ck.cxx_many(todo, includes=(vlib.REPO + "/src/Material",), sanitize=True, opt="-O1"))
+        for i, k in enumerate(keys):
+            name = "c56_%d.o" % i
+            if k is not None and any(t[0] == name for t in todo):
+                tmp = os.path.join(cache, k + ".tmp%d" % os.getpid())
+                shutil.copyfile(objs[name], tmp)
+                os.replace(tmp, os.path.join(cache, k + ".o"))
+    # keep the cache small: the 60 most recent objects
+    files = sorted((os.path.join(cache, f) for f in os.listdir(cache) if f.endswith(".o")), key=os.path.getmtime)
+    for f in files[:-60]:
+        os.remove(f)
+    return objs
+
+
+def system_defect(cs, sb, sn, nv, dv, tv, cv=None):
+    """the geometric clauses of the property on one system as returned by the public API (exact decoding of the
+    long double values): unit normal, unit direction, orthogonal, the right vectors, tensor = direction (x) normal
+    (correctly rounded products), climb tensor = normal (x) normal; returns the kind of defect or None"""
+    eb, en = expected_vectors(cs, sb, sn)
+    if not close(sum(x * x for x in nv), Decimal(1)) or not close(sum(x * x for x in dv), Decimal(1)):
+        return "not-unit"
+    if not close(sum(x * y for x, y in zip(nv, dv)), Decimal(0)):
+        return "not-orthogonal"
+    if not all(close(x, e) for x, e in zip(nv, en)) or not all(close(x, e) for x, e in zip(dv, eb)):
+        return "wrong-vector"
+    if any(tv[k] != round64(dv[p] * nv[q]) for k, (p, q) in enumerate(TIDX)):
+        return "tensor-not-dyadic"
+    if cv is not None and any(cv[k] != round64(nv[p] * nv[q]) for k, (p, q) in enumerate(TIDX)):
+        return "climb-tensor-not-dyadic"
+    return None
+
+
 # ----------------------------------------------------------------------------- the check
 STANDARD = {
     "FCC": [[((1, -1, 0), (1, 1, 1))]],
@@ -192,8 +260,7 @@ STANDARD = {
 def run(ck):
     rng = random.Random(ck.seed)
     units = ["C56/harness.cxx", vlib.REPO + "/src/Utilities/GenTypeCastError.cxx"] + sorted(glob.glob(vlib.REPO + "/src/NUMODIS/*.cxx"))
-    objs = ck.cxx_many([("c56_%d.o" % i, [u], ("-c",)) for i, u in enumerate(units)],
-                       includes=(vlib.REPO + "/src/Material",), sanitize=True, opt="-O1")
+    objs = compile_units(ck, units)
     harness = ck.cxx("c56h", [objs["c56_%d.o" % i] for i in range(len(units))], sanitize=True)
     driver = ck.lean_exe("c56driver", "TfelVerif/C56/Driver.lean")
     res = ck.lean(PROPS, PROPS)
@@ -490,6 +557,110 @@ def run(ck):
                    {"structure": cs, "families": d, "implementation": mat[:200], "model": m[:800]}, False)
 
     ck.log("ranks done")
+    # ------------------------------------------------------------------ (f) every accessor, with and without family index
+    # The overloads without index (getSlipSystems(), getSlipPlaneNormals(), getSlipDirections(), getOrientationTensors(),
+    # getClimbTensors(), getSchmidFactors(d), getNumberOfSlipSystems()) and the indexed ones for i > 0 are public API
+    # too: each family of a description is rendered through both and both renderings are checked.
+    a_req = []
+    for cs, d in descs:
+        if not d:
+            continue
+        if cs == "HCP":
+            u, v, w = rng.randint(-4, 4), rng.randint(-4, 4), rng.randint(1, 4)
+            dirv = (u, v, -(u + v), w)
+        else:
+            dirv = (rng.randint(-5, 5), rng.randint(-5, 5), rng.randint(1, 5))
+        a_req.append((cs, d, dirv))
+    a_lines = ["all %s %s" % (desc_str(cs, d), vec(dirv)) for cs, d, dirv in a_req]
+    ai = run_lines(ck, harness, a_lines)
+    n_all = 0
+
+    def parse_family(txt):
+        f = txt.strip().split("@")
+        fb, fn = f[0].split("|")
+        decl = (tuple(int(x) for x in fb.split(",")), tuple(int(x) for x in fn.split(",")))
+        cnt = int(f[1])
+        syst = parse_systems(f[2]) if f[2] else []
+        vecs = [[[parse_la(x) for x in it.split(",")] for it in f[k].split(";")] if f[k] else [] for k in (3, 4, 5, 6)]
+        sf = [parse_la(x) for x in f[7].split(",")] if f[7] else []
+        return decl, cnt, syst, vecs[0], vecs[1], vecs[2], vecs[3], sf
+    for j, (cs, d, dirv) in enumerate(a_req):
+        a = ai[j] if j < len(ai) else "missing"
+        bad = None
+        try:
+            head, _, tail = a.partition(" | ")
+            indexed, _, overl = tail.partition(" # ")
+            if not _:
+                indexed, _, overl = tail.partition(" #")
+            hf = head.split()
+            nf, tot = int(hf[1]), int(hf[3])
+            fi = [parse_family(x) for x in indexed.split(" | ")]
+            fo = [parse_family(x) for x in overl.split(" | ")] if "size-mismatch" not in overl else None
+            if nf != len(d) or len(fi) != len(d):
+                bad = ("number-of-families", 0, "getNumberOfSlipSystemsFamilies() = %d for %d declared families" % (nf, len(d)))
+            elif fo is None or len(fo) != len(d):
+                bad = ("overload-size", 0, "an overload without family index does not return one entry per family")
+            for i, fam_ in enumerate(d):
+                if bad:
+                    break
+                truth = orbit(cs, fam_[0], fam_[1])
+                for which, (decl, cnt, syst, nvs, dvs, tvs, cvs, sf) in (("indexed", fi[i]), ("all-families", fo[i])):
+                    n_all += len(syst)
+                    iset = {(rep(x), prim(rep(y))) for x, y in syst}
+                    if decl != (tuple(fam_[0]), tuple(fam_[1])):
+                        bad = ("getSlipSystemFamily", i, "family %d is reported as %s" % (i, decl))
+                    elif iset != truth or len(iset) != len(syst):
+                        bad = ("getSlipSystems:%s" % which, i, "the %s accessor returns %d systems for family %d, which are not the %d systems of the family" % (which, len(syst), i, len(truth)))
+                    elif cnt != len(truth):
+                        bad = ("getNumberOfSlipSystems:%s" % which, i, "count %d for a family of %d systems" % (cnt, len(truth)))
+                    elif not (len(nvs) == len(dvs) == len(tvs) == len(cvs) == len(sf) == len(syst)):
+                        bad = ("sizes:%s" % which, i, "normals/directions/tensors/climb tensors/Schmid factors: %s entries for %d systems" % ([len(nvs), len(dvs), len(tvs), len(cvs), len(sf)], len(syst)))
+                    else:
+                        for k_, (sb, sn) in enumerate(syst):
+                            kind = system_defect(cs, sb, sn, nvs[k_], dvs[k_], tvs[k_], cvs[k_])
+                            if kind:
+                                bad = ("%s:%s" % (kind, which), i, "family %d, system <%s>{%s} through the %s accessors: %s" % (i, vec(sb), vec(sn), which, kind))
+                                break
+                            if abs(sf[k_]) > Fraction(1, 2) + TOL:
+                                bad = ("schmid-out-of-range:%s" % which, i, "family %d, system %d: |Schmid factor| > 1/2" % (i, k_))
+                                break
+                    if bad:
+                        break
+                if not bad and fi[i] != fo[i]:
+                    names = ["family", "count", "getSlipSystems", "getSlipPlaneNormals", "getSlipDirections", "getOrientationTensors", "getClimbTensors", "getSchmidFactors"]
+                    diff = [nm for nm, x, y in zip(names, fi[i], fo[i]) if x != y]
+                    bad = ("overload-differs:" + ",".join(diff), i, "%s() without family index returns for family %d something else than the accessor with index %d" % (",".join(diff), i, i))
+            if not bad and tot != sum(len(orbit(cs, b_, n_)) for b_, n_ in d):
+                bad = ("getNumberOfSlipSystems()", 0, "total %d, the families have %s systems" % (tot, [len(orbit(cs, b_, n_)) for b_, n_ in d]))
+        except Exception as e:
+            bad = ("no-answer", 0, a[:200] + " " + repr(e)[:120])
+        count("all:" + ("ok" if not bad else bad[0].split(":")[0]))
+        if bad:
+            disagreements += 1
+            report("src/Material/SlipSystemsDescription.cxx:accessors:%s:%s" % (bad[0], "HCP" if cs == "HCP" else "cubic"),
+                   "%s description %s, loading direction %s: %s" % (cs, d, list(dirv), bad[2]),
+                   {"structure": cs, "families": d, "loading_direction": dirv, "family_index": bad[1], "kind": bad[0],
+                    "request": a_lines[j], "answer": a[:3000]}, bad[0] != "no-answer" or a.startswith("CRASH"))
+    ck.log("accessors done")
+    # ------------------------------------------------------------------ (g) a family already generated is refused
+    # (otherwise a description lists the same systems twice: the 'no duplicates' clause at the level of the description)
+    u_req = []
+    for cs in CUBICS + ["HCP"]:
+        pool = [f for d in STANDARD[cs] for f in d] + rng.sample(fam[cs], 25 if ck.quick else 400)
+        for b, n in pool:
+            u_req.append((cs, tuple(b), tuple(n), rng.randint(0, 47)))
+    u_lines = ["dup %s %s %s %d" % (cs, vec(b), vec(n), k_) for cs, b, n, k_ in u_req]
+    ui = run_lines(ck, harness, u_lines)
+    for j, (cs, b, n, k_) in enumerate(u_req):
+        a = ui[j] if j < len(ui) else "missing"
+        count("dup:" + a.split()[0] if a else "dup:missing")
+        if not a.startswith("refused"):
+            disagreements += 1
+            report("src/Material/SlipSystemsDescription.cxx:addSlipSystemsFamily:duplicate-family-accepted:%s" % ("HCP" if cs == "HCP" else "cubic"),
+                   "%s: after addSlipSystemsFamily(<%s>{%s}), a system generated by this family is accepted as a second family: %s" % (cs, vec(b), vec(n), a[:120]),
+                   {"structure": cs, "first_family": [b, n], "index_of_the_generated_system_added_again": k_, "request": u_lines[j], "answer": a[:400]},
+                   a.startswith("accepted") or a.startswith("CRASH"))
+    ck.log("duplicates done")
     ck.assumptions += [
         "T2/M: harness/C56/harness.cxx includes the tree's SlipSystemsDescription.cxx and links the tree's src/NUMODIS/*.cxx; the family model (orbit of (b,n) under the point group, modulo the sign of each vector) is tied to getSlipSystems by exhaustive comparison over all index families in [-3,3] (Miller-Bravais: h+k+i=0), which is the property's own quantifier; larger indices are not covered by the correspondence",
         "plane indices are compared after division by their gcd (the IPlane constructor reduces them; Burgers vectors are kept as given)",
@@ -499,12 +670,13 @@ def run(ck):
     ]
     tot_fam = len([1 for r in ex_req if r[3]])
     return ck.finish({
-        "evaluations": len(ex_lines) + len(t_lines) + len(g_lines) + len(s_lines) + len(r_lines),
+        "evaluations": len(ex_lines) + len(t_lines) + len(g_lines) + len(s_lines) + len(r_lines) + len(a_lines) + len(u_lines),
         "distinct_nontrivial": len({l for l, r in zip(ex_lines, ex_req) if r[3]}) + len({l for l in t_lines if any(x != "0" for x in l.split()[1:4]) and any(x != "0" for x in l.split()[4:7])}) +
                                len(set(g_lines)) + len(set(s_lines)) + len(set(r_lines)),
         "rule": "requests sent to the implementation, counted once each: family expansions for every (b,n) with indices in [-3,3] and b.n = 0 (Cubic and HCP with h+k+i=0 exhaustively: %d and %d; FCC/BCC sampled in the quick tier) — non-trivial: well-defined families (each is expanded and compared as a set with the orbit); tensor requests with non-zero vectors; geometry, Schmid and rank requests (distinct lines). The finer counts are geometry_systems_checked, schmid_values_checked, rank_pairs_checked" % (len(fam["Cubic"]), len(fam["HCP"])),
         "exhaustive": True, "exhaustive_over": "all slip-system families with Miller / Miller-Bravais indices in [-3,3]: Cubic and HCP in both tiers, FCC and BCC (same code as Cubic) exhaustive in the thorough tier and sampled in the quick tier",
         "families": {cs: len(fam[cs]) for cs in fam}, "families_expanded": len([1 for r in ex_req if r[3]]), "family_size_histogram": {str(k): v for k, v in sorted(sizes.items())},
+        "accessor_requests": len(a_lines), "accessor_systems_checked": n_all, "duplicate_family_requests": len(u_lines),
         "geometry_systems_checked": n_geom, "schmid_values_checked": n_schmid, "rank_pairs_checked": n_pairs,
         "descriptions": len(descs), "branch_histogram": hist, "disagreements": disagreements,
         "traces_validated_against_impl": len(ex_lines) + len(t_lines) + len(g_lines) + len(s_lines) + len(r_lines),
